@@ -280,6 +280,14 @@ func (p *c09) Exec(ctx core.Ctx, cc any) core.Obs {
 					Data: tvMap(map[string]TV{"n": tvI(5), "title": tvS("t"), "user": tvMap(map[string]TV{"k" + u: tvS("v" + u)}), "deep": tvMap(map[string]TV{"a" + u: tvMap(map[string]TV{"b": tvList(tvI(0), tvMap(map[string]TV{"c": tvS("leaf" + u)}))})})})}
 				freshProgs = append(freshProgs, fp)
 				call = c09Call{prog: fp, fresh: true}
+			} else if k%5 == 1 && c.Mode != "vue" {
+				// a string template rendered straight on the shared base template (no New, no Fill)
+				u := fmt.Sprintf("%d_%d_%d", c.Run, g, k)
+				bp := &Prog{Name: "base-string", Mode: "base-string",
+					Str:  fmt.Sprintf(`<p data-b="%s">{{ SiteName }}|{{ site_name }}|{{ Build }}<i v-for="(i, f) in Flags">{{ i }}{{ f }}<b v-for="n in two%s">{{ n }}</b></i><template :lk_b="'%s'"><u>{{ lk_b }}</u></template><em v-if="Inner">{{ Inner.SiteName }}</em></p>`, u, u, u),
+					Data: tvMap(map[string]TV{})}
+				freshProgs = append(freshProgs, bp)
+				call = c09Call{prog: bp, fresh: true}
 			} else {
 				call = c09Call{prog: &p.progs[r.Intn(len(p.progs))]}
 				if focus != nil && r.Bool() {
@@ -397,7 +405,11 @@ func (p *c09) Exec(ctx core.Ctx, cc any) core.Obs {
 			}
 			ref, ok := solo[key]
 			if !ok {
-				out, err := newCatEngine(fsys).run(call.prog, call.ep, call.prog.Variant(call.v))
+				soloEng := newCatEngine(fsys)
+				if c.StructBase {
+					soloEng.base = soloEng.base.Fill(&c09SiteCfg{SiteName: "site", Build: 7, Flags: []string{"x"}, Inner: &c09SiteCfg{SiteName: "inner"}})
+				}
+				out, err := soloEng.run(call.prog, call.ep, call.prog.Variant(call.v))
 				ref = c10Ref{out, errStr(err)}
 				solo[key] = ref
 				o.Evals++
